@@ -16,6 +16,19 @@ from .common import log, GRange, AldyException, script_path, chr_prefix
 from .gene import Gene
 
 
+def _parse_bool(v) -> bool:
+    """Parse a boolean parameter (true/false in any letter case, 1/0 or a real bool)."""
+    if isinstance(v, bool):
+        return v
+    if isinstance(v, int) and v in (0, 1):
+        return bool(v)
+    if isinstance(v, str) and v.lower() in ("true", "1"):
+        return True
+    if isinstance(v, str) and v.lower() in ("false", "0"):
+        return False
+    raise ValueError(f"not a boolean: {v}")
+
+
 class Profile:
     """Profile and model parameter information."""
 
@@ -230,7 +243,7 @@ class Profile:
                 else:
                     try:
                         if isinstance(self.__dict__[n], bool):
-                            self.__dict__[n] = not (v in ["False", "0"])
+                            self.__dict__[n] = _parse_bool(v)
                         else:
                             typ = type(self.__dict__[n])
                             self.__dict__[n] = typ(v)
